@@ -1,12 +1,15 @@
 (** C14 — Metadata entries keep referential integrity and faithful lookups.
     Only theorem statements here; each is closed by [exact] of a lemma proved in Proofs/
-    (AddressProofs, Bech32Proofs, AddressTextProofs, RefsProofs) about the models
-    Metadata/Address.v, Metadata/Bech32.v, Metadata/Refs.v. *)
+    (AddressProofs, Bech32Proofs, AddressTextProofs, RefsProofs, RefsExtraProofs, SpecRefsProofs,
+    RefsBytesProofs, Utf8NameProofs) about the models Metadata/Address.v, Metadata/Bech32.v,
+    Metadata/Refs.v, Metadata/RefsBytes.v (store keys at byte level), Metadata/Utf8Name.v. *)
 From Coq Require Import String Ascii.
-From Coq Require Import NArith ZArith List.
+From Coq Require Import NArith ZArith List Bool.
 Import ListNotations.
-From PV Require Import Metadata.Address Metadata.Refs.
+From PV Require Import Metadata.Address Metadata.Refs Metadata.RefsBytes Metadata.Utf8Name.
 From PV Require Import Proofs.AddressProofs Proofs.Bech32Proofs Proofs.AddressTextProofs Proofs.RefsProofs.
+From PV Require Import Proofs.RefsExtraProofs Proofs.SpecRefsProofs Proofs.RefsBytesProofs Proofs.Utf8NameProofs.
+From PV Require Import Corr.C14 Proofs.C14CheckerProofs.
 
 (** ** Addresses *)
 
@@ -60,6 +63,63 @@ Section Hash.
   Proof. exact (constructors_wf name_hash name_hash_len). Qed.
 End Hash.
 Print Assumptions C14_address_constructors.
+
+(** *** Names outside ASCII.  The name hashed into a record / record-specification address is
+    strings.ToLower(strings.TrimSpace(name)) on UTF-8 (Metadata/Utf8Name.v: UTF-8 decoding and
+    TrimSpace complete, unicode.ToLower on the transcribed ranges, [None] elsewhere). *)
+
+(** On ASCII names the UTF-8 model is the ASCII model the theorems above use. *)
+Theorem C14_utf8_names_extend_ascii : forall s, forallb (fun b => b <? 128)%N s = true ->
+  trim_u s = trim s /\ normalize_u s = Some (normalize_name s).
+Proof. exact (fun s H => conj (trim_u_ascii s H) (normalize_u_ascii s H)). Qed.
+Print Assumptions C14_utf8_names_extend_ascii.
+
+(** UTF-8 decoding loses no byte, trimming removes only a prefix and a suffix, and what is left
+    neither starts nor ends with a white-space rune. *)
+Theorem C14_utf8_trim : forall s,
+  flat_map u_bytes (decode s) = s /\ (exists a b, s = a ++ trim_u s ++ b) /\
+  (match trim_runes (decode s) with u :: _ => space_u u = false | [] => True end) /\
+  (match rev (trim_runes (decode s)) with u :: _ => space_u u = false | [] => True end).
+Proof.
+  exact (fun s => conj (decode_bytes s) (conj (trim_u_infix s)
+           (conj (proj1 (trim_runes_ends (decode s))) (proj2 (trim_runes_ends (decode s)))))).
+Qed.
+Print Assumptions C14_utf8_trim.
+
+(** Every Unicode scalar value encodes to bytes that decode to exactly that rune (so the U+FFFD
+    that ToLower writes for an invalid byte reads back as U+FFFD). *)
+Theorem C14_utf8_decode_encode : forall r, (r <= 1114111)%N -> ~ (55296 <= r <= 57343)%N ->
+  decode (encode r) = [UR r true (encode r)].
+Proof. exact decode_encode. Qed.
+Print Assumptions C14_utf8_decode_encode.
+
+Section HashU.
+  Variable name_hash : list N -> list N.
+  Hypothesis name_hash_len : forall n, length (name_hash n) = 16%nat.
+
+  (** WHATEVER the normal form of a name is (any non-empty byte string - e.g. the one Go computed
+      for a name outside the modelled ranges), the record and the record-specification address
+      built from it parse back to their parts, carry the SAME name hash, and their derived parents
+      are the scope / the contract specification. *)
+  Theorem C14_named_addresses_consistent : forall su cu norm,
+    length su = 16%nat -> length cu = 16%nat -> norm <> [] ->
+    exists r s, named_addr name_hash TRecord su norm = Some r /\
+      named_addr name_hash TRecordSpec cu norm = Some s /\
+      parse r = Some (ARecord su (name_hash norm)) /\ parse s = Some (ARecordSpec cu (name_hash norm)) /\
+      name_hash_of r = Some (name_hash norm) /\ name_hash_of s = Some (name_hash norm) /\
+      as_scope_address r = Some (scope_addr su) /\ as_contract_spec_address s = Some (contract_spec_addr cu).
+  Proof. exact (named_addr_parts name_hash name_hash_len). Qed.
+
+  (** Names with the same normal form (case variants, surrounding white space of any kind) have
+      the same record and record-specification address. *)
+  Theorem C14_same_normal_form_same_address : forall su n1 n2 x,
+    normalize_u n1 = Some x -> normalize_u n2 = Some x ->
+    record_addr_u name_hash su n1 = record_addr_u name_hash su n2 /\
+    record_spec_addr_u name_hash su n1 = record_spec_addr_u name_hash su n2.
+  Proof. exact (same_norm_same_addr name_hash). Qed.
+End HashU.
+Print Assumptions C14_named_addresses_consistent.
+Print Assumptions C14_same_normal_form_same_address.
 
 (** ** Bech32 *)
 
@@ -124,7 +184,126 @@ Theorem C14_refs_inv : forall ops, forallb guarded ops = true ->
 Proof. exact refs_inv. Qed.
 Print Assumptions C14_refs_inv.
 
-(** ... so a scope id that is not stored has nothing under it. *)
+
+(** *** Specification references (over ALL guarded histories).
+    What the code keeps intact, exactly: in every history of messages and keeper calls other than
+    the raw writers SetScope / SetScopeSpecification / SetRecordSpecification and the keeper's
+    bare RemoveContractSpecification ([spec_guarded]), every stored scope's specification is a
+    stored scope specification (ValidateWriteScope / ValidateUpdateScopeOwners check it,
+    isScopeSpecUsed blocks its removal), every contract specification a scope specification lists
+    is stored (ValidateWriteScopeSpecification checks the NEW ids, isContractSpecUsed blocks the
+    removal), and every record specification's contract specification is stored
+    (MsgDeleteContractSpecification removes the record specifications first). *)
+Theorem C14_spec_refs_inv : forall ops, forallb spec_guarded ops = true ->
+  let st := run ops in
+  (forall sc, In sc (scopes st) -> isSome (find_sspec st (sc_spec sc)) = true) /\
+  (forall sp c, In sp (sspecs st) -> In c (ss_cspecs sp) -> isSome (find_cspec st c) = true) /\
+  (forall r, In r (rspecs st) -> isSome (find_cspec st (rs_cspec r)) = true).
+Proof. exact spec_refs_inv. Qed.
+Print Assumptions C14_spec_refs_inv.
+
+(** What sessions and records refer to (a session's contract specification; a record's record
+    specification = its session's contract specification + its name) is checked when they are
+    written and survives every guarded history WITHOUT removals of contract / record
+    specifications ... *)
+Theorem C14_spec_refs_of_sessions_and_records : forall ops,
+  forallb (fun o => guarded o && negb (removes_cr_spec o)) ops = true ->
+  let st := run ops in
+  (forall se, In se (sessions st) -> isSome (find_cspec st (se_spec se)) = true) /\
+  (forall r, In r (records st) ->
+     exists se, find_session st (r_scope r) (r_sess r) = Some se /\
+                isSome (find_rspec st (se_spec se) (r_name r)) = true).
+Proof. exact use_refs_inv. Qed.
+Print Assumptions C14_spec_refs_of_sessions_and_records.
+
+(** ... and NOT those removals: isContractSpecUsed looks only at scope specifications ("TODO: Look
+    for sessions"), isRecordSpecUsed is the constant false ("TODO: Check for records").  By
+    MESSAGES alone (all accepted) a session is left with a deleted contract specification ... *)
+Theorem C14_session_contract_spec_refuted :
+  forallb guarded w_session = true /\ forallb spec_guarded w_session = true /\
+  oks w_session = [true; true; true; true; true; true] /\
+  sessions (run w_session) = [Se 1 1 1] /\ find_cspec (run w_session) 1 = None.
+Proof. exact session_cspec_refuted. Qed.
+Print Assumptions C14_session_contract_spec_refuted.
+
+(** ... and a record with a deleted record specification. *)
+Theorem C14_record_spec_refuted :
+  forallb guarded w_record = true /\ forallb spec_guarded w_record = true /\
+  oks w_record = [true; true; true; true; true; true; true] /\
+  records (run w_record) = [Re 1 7 1] /\ find_session (run w_record) 1 1 = Some (Se 1 1 1) /\
+  find_rspec (run w_record) 1 7 = None.
+Proof. exact record_rspec_refuted. Qed.
+Print Assumptions C14_record_spec_refuted.
+
+(** The exclusions of [spec_guarded] are needed: the keeper's RemoveContractSpecification leaves
+    the record specifications; the raw writers store dangling ids, a message then keeps an id the
+    scope specification already lists (never re-checked), data access can be edited on a scope
+    without specification but owners cannot. *)
+Theorem C14_spec_refs_exclusions_needed :
+  (let ops := [MWriteCSpec (Cs 1 [1]); MWriteRSpec (Rs 1 7); KRemoveCSpec 1] in
+   oks ops = [true; true; true] /\ rspecs (run ops) = [Rs 1 7] /\ find_cspec (run ops) 1 = None) /\
+  (let ops := [KSetScope (Sc 1 9 [1] []); MAddDataAccess 1 [2]; MAddOwners 1 [2]] in
+   oks ops = [true; true; false] /\ scopes (run ops) = [Sc 1 9 [1] [2]] /\ find_sspec (run ops) 9 = None) /\
+  (let ops := [KSetSSpec (Ss 1 [1] [9]); MWriteSSpec (Ss 1 [2] [9]); MWriteSSpec (Ss 2 [2] [9])] in
+   oks ops = [true; true; false] /\ sspecs (run ops) = [Ss 1 [2] [9]] /\ find_cspec (run ops) 9 = None).
+Proof. exact (conj rspec_orphan_refuted raw_writers_dangle). Qed.
+Print Assumptions C14_spec_refs_exclusions_needed.
+
+(** *** Referential integrity at BYTE level (Metadata/RefsBytes.v: the interned store of Refs.v
+    rendered into the real key layout by an environment giving the bytes of every id).  For every
+    environment with 16 byte UUIDs and name hashes, after every guarded history: the scope address
+    computed FROM THE BYTES of a session key (AsScopeAddress) is the key of a stored scope - the
+    scope the store model files the session under; the same for a record key, whose SessionId
+    field is moreover the key of a stored session of the same scope. *)
+Theorem C14_refs_inv_bytes : forall e ops, env_len e -> forallb guarded ops = true ->
+  let st := run ops in let K := primary_keys e st in
+  (forall s, In s (sessions st) ->
+     as_scope_address (session_key e s) = Some (scope_key e (se_scope s)) /\
+     exists p, as_scope_address (session_key e s) = Some p /\ In p K /\ is_type TScope p = true) /\
+  (forall r, In r (records st) ->
+     as_scope_address (record_key e r) = Some (scope_key e (r_scope r)) /\
+     record_key e r = type_byte TRecord :: bytes_1_17 (record_session_id e r) ++ e_name e (r_name r) /\
+     exists p, as_scope_address (record_key e r) = Some p /\ In p K /\ is_type TScope p = true /\
+               In (record_session_id e r) K /\ as_scope_address (record_session_id e r) = Some p).
+Proof.
+  exact (fun e ops He Hg =>
+    conj (fun s Hs => conj (as_scope_session_key e s He) (proj1 (refs_inv_bytes e ops He Hg) s Hs))
+         (fun r Hr => conj (as_scope_record_key e r He)
+                        (conj (record_key_from_session_id e r He) (proj2 (refs_inv_bytes e ops He Hg) r Hr)))).
+Qed.
+Print Assumptions C14_refs_inv_bytes.
+
+(** The primary key set of the store is closed under AsScopeAddress. *)
+Theorem C14_primary_keys_closed : forall e ops, env_len e -> forallb guarded ops = true ->
+  let K := primary_keys e (run ops) in
+  forall k p, In k K -> as_scope_address k = Some p -> In p K.
+Proof. exact primary_keys_closed. Qed.
+Print Assumptions C14_primary_keys_closed.
+
+(** IterateSessions(scope) / IterateRecords(scope) are prefix scans with the scope's iterator
+    prefixes: on the byte keys they return exactly the entries the interned model files under
+    that scope (any state; the interning injective on the scope ids in use). *)
+Theorem C14_scope_scans_exact : forall e st id, env_len e ->
+  (inj_on (id :: map se_scope (sessions st)) (e_scope e) ->
+   sessions_under (scope_key e id) (primary_keys e st) =
+   map (session_key e) (filter (fun s => se_scope s =? id)%Z (sessions st))) /\
+  (inj_on (id :: map r_scope (records st)) (e_scope e) ->
+   records_under (scope_key e id) (primary_keys e st) =
+   map (record_key e) (filter (fun r => r_scope r =? id)%Z (records st))).
+Proof.
+  exact (fun e st id He => conj (sessions_under_exact e st id He) (records_under_exact e st id He)).
+Qed.
+Print Assumptions C14_scope_scans_exact.
+
+(** Distinct entries have distinct byte keys after ANY history. *)
+Theorem C14_byte_keys_unique : forall e ops, env_len e -> let st := run ops in
+  inj_on (map sc_id (scopes st) ++ map se_scope (sessions st) ++ map r_scope (records st)) (e_scope e) ->
+  inj_on (map se_uuid (sessions st)) (e_sess e) -> inj_on (map r_name (records st)) (e_name e) ->
+  NoDup (primary_keys e st).
+Proof. exact primary_keys_nodup. Qed.
+Print Assumptions C14_byte_keys_unique.
+
+(** From [C14_refs_inv]: a scope id that is not stored has nothing under it. *)
 Theorem C14_no_scope_nothing_under_it : forall ops id, forallb guarded ops = true ->
   find_scope (run ops) id = None ->
   (forall s, In s (sessions (run ops)) -> se_scope s <> id) /\
@@ -155,6 +334,28 @@ Theorem C14_delete_scope_leaves_nothing : forall ops id st',
   (forall d p, ~ In (id, d, p) (navs st')).
 Proof. exact delete_scope_clean. Qed.
 Print Assumptions C14_delete_scope_leaves_nothing.
+
+
+(** The keeper's RemoveScope by itself does NOT remove the scope's net asset values (the message
+    handler calls RemoveNetAssetValues after it; RemoveScope has no other caller in /repo). *)
+Theorem C14_remove_scope_keeps_navs_refuted :
+  let ops := [MWriteCSpec (Cs 1 [1]); MWriteSSpec (Ss 1 [1] [1]); MWriteScope (Sc 1 1 [1] []) 25;
+              KSetNav 1 1 7] in
+  navs (run ops) = [(1, 1, 7); (1, 0, 25)] /\
+  (let st' := fst (step (run ops) (KRemoveScope 1)) in
+   scopes st' = [] /\ navs st' = [(1, 1, 7); (1, 0, 25)]) /\
+  (let st' := fst (step (run ops) (MDeleteScope 1)) in scopes st' = [] /\ navs st' = []).
+Proof. exact remove_scope_keeps_navs_refuted. Qed.
+Print Assumptions C14_remove_scope_keeps_navs_refuted.
+
+(** Object store locators are keyed by ACCOUNT: only the three locator messages change them, so
+    deleting a scope (by message or keeper call) leaves them all; GetOSLocatorByScope lists the
+    locators of the scope's owner entries. *)
+Theorem C14_scope_operations_leave_locators : forall st o,
+  (match o with MBindLoc _ _ _ | MDelLoc _ | MModLoc _ _ => false | _ => true end) = true ->
+  locs (fst (step st o)) = locs st.
+Proof. exact locs_frame_match. Qed.
+Print Assumptions C14_scope_operations_leave_locators.
 
 (** Removing a session's last record removes the session: in EVERY state, RemoveRecord deletes
     the record, and if no record of its session is left the session is gone too; the same through
@@ -197,6 +398,34 @@ Theorem C14_indexes_exact : forall ops, let st := run ops in
 Proof. exact indexes_exact. Qed.
 Print Assumptions C14_indexes_exact.
 
+
+(** The by-address lookup as a query, after ANY history - in particular after MsgAddScopeOwner /
+    MsgDeleteScopeOwner / MsgAddScopeDataAccess / MsgDeleteScopeDataAccess, which go through
+    GetScope -> edit the list -> SetScope and are operations of [step]: account [a] lists scope
+    [id] iff the stored scope names [a] (in either spelling) as an owner or for data access. *)
+Theorem C14_scopes_by_address_lookup : forall ops a id, let st := run ops in
+  In (a, id) (ix_as st) <->
+  exists sc, find_scope st id = Some sc /\ In a (map acct (sc_da sc ++ sc_owners sc)).
+Proof. exact scopes_by_address_lookup. Qed.
+Print Assumptions C14_scopes_by_address_lookup.
+
+(** What the two owner messages do when accepted: AddScopeOwner appends parties that were not
+    there (as strings) to a scope whose specification exists; DeleteScopeOwner removes all listed
+    addresses, which all were owners, and never the last owner. *)
+Theorem C14_owner_messages : forall st id l st' sc, find_scope st id = Some sc ->
+  (step st (MAddOwners id l) = (st', true) ->
+   find_scope st' id = Some (Sc id (sc_spec sc) (sc_owners sc ++ l) (sc_da sc)) /\
+   l <> [] /\ (forall a, In a l -> ~ In a (sc_owners sc)) /\
+   isSome (find_sspec st (sc_spec sc)) = true) /\
+  (step st (MDelOwners id l) = (st', true) ->
+   find_scope st' id = Some (Sc id (sc_spec sc) (drop_all l (sc_owners sc)) (sc_da sc)) /\
+   drop_all l (sc_owners sc) <> [] /\ (forall a, In a l -> In a (sc_owners sc))).
+Proof.
+  exact (fun st id l st' sc Hf =>
+    conj (add_owners_effect st id l st' sc Hf) (del_owners_effect st id l st' sc Hf)).
+Qed.
+Print Assumptions C14_owner_messages.
+
 (** The statement above was FALSE of the code before fix 722f4df35 (finding
     C14-spec-owner-respelling, findings/C14.md): the two specification writers diffed the owner
     STRINGS ([set_sspec_strdiff], [set_cspec_strdiff]), so an owner whose spelling changed across an
@@ -225,6 +454,33 @@ Theorem C14_keys_unique : forall ops, let st := run ops in
 Proof. exact keys_unique. Qed.
 Print Assumptions C14_keys_unique.
 
+(** ** The property's executable checkers are sound on the model.
+    Corr/C14.v evaluates [p_refs], [p_spec_refs], [p_unique], [p_indexes], [p_listings],
+    [p_locs_by_scope] on what the real code returned (the [prop:] tags).  Evaluated on the model's
+    own projection [model_obs] after ANY history (guarded where the clause needs it) they never
+    fail: a failing [prop:] tag is a behaviour the model cannot show. *)
+Theorem C14_checkers_hold_on_model : forall accts sids ssids csids ops b,
+  let o := model_obs accts sids ssids csids (run ops) b in
+  (forallb guarded ops = true -> p_refs o = true) /\
+  (forallb spec_guarded ops = true -> p_spec_refs o = []) /\
+  p_unique o = true /\ p_indexes accts ssids csids o = [] /\ p_listings sids csids o = [] /\
+  p_locs_by_scope sids o = true.
+Proof.
+  exact (fun accts sids ssids csids ops b =>
+    conj (p_refs_model accts sids ssids csids ops b)
+   (conj (p_spec_refs_model accts sids ssids csids ops b)
+   (conj (p_unique_model accts sids ssids csids ops b)
+   (conj (p_indexes_model accts sids ssids csids ops b)
+   (conj (p_listings_model accts sids ssids csids ops b)
+         (p_locs_by_scope_model accts sids ssids csids ops b)))))).
+Qed.
+Print Assumptions C14_checkers_hold_on_model.
+
+(** (used by the last clause) an account has at most one object store locator, after ANY history *)
+Theorem C14_one_locator_per_account : forall ops, NoDup (map fst (locs (run ops))).
+Proof. exact locs_unique. Qed.
+Print Assumptions C14_one_locator_per_account.
+
 (** Non-vacuity.  A concrete guarded history: specs, a scope with two owners, a session without
     records and one with a record that is then moved (its old session disappears), then the scope
     is deleted by message (the record-less session goes too).  The hypothesis [guarded] matters:
@@ -239,11 +495,22 @@ Example C14_witness :
   sessions (run demo) = [Se 5 3 1; Se 5 2 1] /\ records (run demo) = [Re 5 7 2] /\
   ix_as (run demo) = [(2, 5); (1, 5); (3, 5)] /\ navs (run demo) = [(5, 0, 10)] /\
   step (run demo) (MDeleteScope 5) =
-    (St [] [] [] [Ss 1 [2] [1]] [Cs 1 [1]] [Rs 1 7] [] [] [] [(2, 1)] [(1, 1)] [(1, 1)], true) /\
+    (St [] [] [] [Ss 1 [2] [1]] [Cs 1 [1]] [Rs 1 7] [] [] [] [(2, 1)] [(1, 1)] [(1, 1)] [], true) /\
   sessions (run [KSetSession (Se 9 9 9)]) = [Se 9 9 9] /\ scopes (run [KSetSession (Se 9 9 9)]) = [] /\
   ix_as (run [KSetScope (Sc 1 1 [3] []); KSetScope (Sc 1 1 [103] [])]) = [(3, 1)] /\
   ix_asp (run [KSetSSpec (Ss 1 [3] []); KSetSSpec (Ss 1 [103] [])]) = [(3, 1)] /\
   ix_ac (run [KSetCSpec (Cs 1 [3; 103]); KSetCSpec (Cs 1 [103])]) = [(3, 1)] /\
+  (* owner messages maintain the lookup; the scope's locator survives its deletion *)
+  (let h := demo ++ [MAddOwners 5 [104]; MDelOwners 5 [1; 2]; MBindLoc true 104 3] in
+   forallb spec_guarded h = true /\ oks h = repeat true 12 /\
+   ix_as (run h) = [(4, 5); (3, 5)] /\ locs_by_scope (run h) 5 = Some [(4, 3)] /\
+   locs (fst (step (run h) (MDeleteScope 5))) = [(4, 3)]) /\
+  (* byte level: a concrete environment meets the hypotheses, the store's keys are as laid out *)
+  (let e := env_of [repeat 1%N 16; repeat 2%N 16] [repeat 3%N 16] [] [] [repeat 9%N 16] [] [] in
+   store_keys e (run [KSetSession (Se 2 1 0); KSetRecord (Re 2 1 1)]) =
+     [1%N :: repeat 2%N 16 ++ repeat 3%N 16; 2%N :: repeat 2%N 16 ++ repeat 9%N 16] /\
+   sessions_under (scope_key e 2) (primary_keys e (run [KSetSession (Se 2 1 0); KSetSession (Se 1 1 0)])) =
+     [1%N :: repeat 2%N 16 ++ repeat 3%N 16]) /\
   (let u := repeat 7%N 16 in let v := repeat 255%N 16 in
    maddr_wf (ARecord u v) /\ parse (maddr_bytes (ARecord u v)) = Some (ARecord u v) /\
    as_scope_address (maddr_bytes (ASession u v)) = Some (maddr_bytes (AScope u)) /\
